@@ -533,6 +533,7 @@ fn helix_only() -> impl Strategy<Value = PointsCase> {
     (proptest::collection::vec((1u8..=4, 0u16..800, 20u16..=60, any::<u64>()), 1..=4)).prop_map(|v| PointsCase {
         groups: v.into_iter().map(|(spacing_mm, noise_um, n, seed)| Group { family: Family::Helix { spacing_mm, noise_um }, n, seed, flat: 0 }).collect(),
         duplicates: vec![],
+        turns: 0,
     })
 }
 
